@@ -120,6 +120,13 @@ Section Stmt.
       + repeat split; auto. chain Hpre. chain IH2. vstep. vstep1 Eb. fin.
       + hstar Hpre. hstar IH2. eapply halts_star; [ vstep; apply star_refl | vstop1 Eb ].
       + hstar Hpre. hstar IH2. eapply halts_star; [ vstep; apply star_refl | vstop1 Eb ].
+    - (* TDot: no value of the model has assignable fields *)
+      change (gen_assign p (map fst ρ) (TDot x name p0) ps) with (gen_expr p (map fst ρ) x ++ [EXCH; SETFIELD name p0]) in *.
+      pcode_split.
+      codeof x ltac:(fun Hc => pose proof (IHE stk ρ x s fid C fv K pc (v :: σ) I brk cont Hok Hwf Hstk Hc) as IH1).
+      simpl assign.
+      destruct (eval p n stk ρ x s) as [[vx s1]| | |]; cbn [sim fst snd] in *; auto.
+      hstar IH1. eapply halts_star; [ vstep; apply star_refl | vstop ].
     - (* TSeq *)
       rewrite ga_seq in *. pcode_split.
       simpl assign.
@@ -214,6 +221,27 @@ Section Stmt.
       apply andb_true_iff in Hok. destruct Hok as [Hok Ho]. apply andb_true_iff in Hok. destruct Hok as [Ht He].
       apply negb_true_iff in Ho.
       destruct t; simpl in Ht; try discriminate.
+      3: { (* field target *)
+           change (gen_stmt p (map fst ρ) (SAug o (TDot x name p1) e p0))
+             with (gen_expr p (map fst ρ) x ++ [DUP; ATTR name p1] ++ gen_expr p (map fst ρ) e ++ aug_insn o p0 ++ [SETFIELD name p1]) in *.
+           pcode_split. rewrite ?aug_len in *.
+           codeof x ltac:(fun Hc => pose proof (IHE stk ρ x s fid0 C fv K pc [] I brk cont Ht Hwf Hstk Hc) as IH1).
+           simpl exec.
+           destruct (eval p n stk ρ x s) as [[vx s1]| | |]; cbn [sim fst snd] in *; auto.
+           destruct (getattr vx name (rw s1)) as [old| |t] eqn:Eg; cbn [lift sim fst snd].
+           2: { hstar IH1. eapply halts_star; [ vstep; apply star_refl | vstop1 Eg ]. }
+           2: { hstar IH1. eapply halts_star; [ vstep; apply star_refl | vstop1 Eg ]. }
+           assert (Hpre : star cp fn (S1 fid0 C fv K pc [] ρ I s)
+                            (S1 fid0 C fv K (pc + length (gen_expr p (map fst ρ) x) + 2) [old; vx] ρ I s1)).
+           { chain IH1. vstep. vstep1 Eg. fin. }
+           codeof e ltac:(fun Hc => pose proof (IHE stk ρ e s1 fid0 C fv K _ [old; vx] I brk cont He Hwf Hstk Hc) as IH3).
+           destruct (eval p n stk ρ e s1) as [[ve s3]| | |]; cbn [sim fst snd] in *; auto;
+             try (hstar Hpre; hchain IH3).
+           match goal with Hc : pcode_at _ ?q (aug_insn _ _) _ _ |- _ =>
+             pose proof (aug_step o p0 old ve (rw s3) fid0 C fv K q [vx] (env_vals ρ) I (rg s3) brk cont Ho Hc) as IHa end.
+           destruct (apply_aug o old ve (rw s3)) as [[r w]| |t] eqn:Ea; cbn [lift sim fst snd];
+             try (hstar Hpre; hstar IH3; hchain IHa).
+           hstar Hpre. hstar IH3. hstar IHa. vstop. }
       3: { (* sequence target: rejected statically; both sides report it *)
            change (gen_stmt p (map fst ρ) (SAug o (TSeq ts) e p0)) with [UNSUPPORTED "static:augmented-sequence"] in *.
            pcode_split. simpl exec. cbn [sim]. vstop. }
